@@ -171,13 +171,16 @@ def main(tier: str) -> int:
         json.dump(cases, fh)
     ambients = {kind: prepare_ambient(kind, cases, os.path.join(run.scratch(), 'ambient'))
                 for kind in AMBIENTS}
-    jobs, kind_of, shared_builder_jobs = [], {}, []
+    jobs, kind_of, shared_builder_jobs, shared_cfg_jobs = [], {}, [], []
     for hs in seeds:
         for k in range(2):
             kind = AMBIENTS[len(jobs) % len(AMBIENTS)]
             cwd, env_extra = ambients[kind]
             if len(jobs) % 2:
                 env_extra = dict(env_extra, VERIF_REVERSE_CASES='1')
+            if len(jobs) % 3 == 2:
+                env_extra = dict(env_extra, VERIF_SHARED_CONFIGURATION='1')
+                shared_cfg_jobs.append((hs, (hs * 7 + k) if k else 'none'))
             if (len(jobs) // len(AMBIENTS)) % 2:
                 env_extra = dict(env_extra, VERIF_SHARED_BUILDER='1')
                 shared_builder_jobs.append((hs, (hs * 7 + k) if k else 'none'))
@@ -187,6 +190,7 @@ def main(tier: str) -> int:
     run.require('executions_compared', 'md5_recomputed', 'cases_with_non_ascii_contents',
                 'cases_with_relative_model_filename', 'cases_with_mixed_requires_semantics',
                 'children_with_one_builder_for_all_cases', 'cases_that_are_a_second_revision_of_another',
+                'children_with_one_configuration_object_for_all_cases',
                 *[f'child_in_ambient_{kind}' for kind in AMBIENTS])
     for (_p, hashseed, order_seed, _cwd, _env), res in run.pmap(_worker, jobs):
         if 'error' in res:
@@ -196,6 +200,8 @@ def main(tier: str) -> int:
         run.count(f'child_in_ambient_{kind_of[(hashseed, order_seed)]}')
         if (hashseed, order_seed) in shared_builder_jobs:
             run.count('children_with_one_builder_for_all_cases')
+        if (hashseed, order_seed) in shared_cfg_jobs:
+            run.count('children_with_one_configuration_object_for_all_cases')
         for pas, idx, out in res['results']:
             case = cases[idx]
             ident = {'hashseed': hashseed, 'order_seed': order_seed, 'pass': pas,
@@ -242,7 +248,8 @@ def main(tier: str) -> int:
              'directory in which the configured model file name exists as a regular file; as a '
              'symbolic link to a differently named file; other HOME/USER/TZ/locale and a clock '
              '400 days ahead), every other group of processes serving all its cases from one '
-             'Builder object, every other process building the cases in reverse order (some '
+             'Builder object, every third filling one Configuration object in anew for every case, '
+             'every other process building the cases in reverse order (some '
              'cases are a second revision of their neighbour: same names, other extern types); all executions of a case must agree on file names, sha256(contents) '
              'and hash; evaluations = cases; non-trivial = a selection naming >=2 ports',
         assumptions=['equal inputs = same JSON document and same configuration encoding'])
